@@ -18,23 +18,18 @@ Fixpoint itoa_fuel (fuel : nat) (n : N) (acc : str) : str :=
   end.
 Definition itoa (n : N) : str := itoa_fuel (S (N.to_nat (N.log2 n))) n [].
 
-(* strconv.ParseInt(x, 10, 64) followed by the "epoch < 0" test and uint(): the accepted epochs *)
+(* strconv.ParseUint(x, 10, 0) on the 64-bit build and uint(): the accepted epochs are the non-empty runs of digits (no sign)
+   whose value fits the Epoch field *)
 Definition plus : ascii := "+"%char.
 Definition minus : ascii := "-"%char.
-Definition max_int64 : N := 9223372036854775807%N.
+Definition max_epoch : N := 18446744073709551615%N.
 Definition parse_epoch (x : str) : option N :=
   match x with
   | [] => None
-  | c :: r =>
-      let '(neg, ds) := if ceq c plus then (false, r) else if ceq c minus then (true, r) else (false, x) in
-      match ds with
-      | [] => None
-      | _ => match dv 0 ds with
-             | None => None
-             | Some n => if neg then (if (n =? 0)%N then Some 0%N else None)   (* range / negative *)
-                         else if (n <=? max_int64)%N then Some n else None
-             end
-      end
+  | _ => match dv 0 x with
+         | None => None
+         | Some n => if (n <=? max_epoch)%N then Some n else None
+         end
   end.
 
 (* ---------- parse ---------- *)
@@ -214,7 +209,7 @@ Proof. apply by_enum. vm_compute. reflexivity. Qed.
 
 (* ---------- the round trip ---------- *)
 Record wf_v (v : version) : Prop := {
-  wf_epoch : (epoch v <= max_int64)%N;
+  wf_epoch : (epoch v <= max_epoch)%N;
   wf_first : exists c r, upstream v = c :: r /\ is_digit c = true;
   wf_up : forallb ok_up (upstream v) = true;
   wf_rev : forallb ok_rev (revision v) = true }.
@@ -235,13 +230,11 @@ Proof.
   - apply (forallb_free is_digit); [exact H|reflexivity].
 Qed.
 
-Lemma parse_epoch_itoa n : (n <= max_int64)%N -> parse_epoch (itoa n) = Some n.
+Lemma parse_epoch_itoa n : (n <= max_epoch)%N -> parse_epoch (itoa n) = Some n.
 Proof.
   intros Hn. pose proof (itoa_digits n) as D. pose proof (itoa_nonempty n) as NE. pose proof (dv_itoa n) as V.
   destruct (itoa n) as [|c r] eqn:E; [congruence|]. unfold parse_epoch.
-  cbn in D. apply andb_true_iff in D as [Dc Dr].
-  destruct (ceq_spec c plus) as [->|]; [discriminate Dc|]. destruct (ceq_spec c minus) as [->|]; [discriminate Dc|].
-  rewrite V. destruct (N.leb_spec n max_int64); [reflexivity|lia].
+  rewrite V. destruct (N.leb_spec n max_epoch); [reflexivity|lia].
 Qed.
 
 Theorem roundtrip_wf v : wf_v v -> parse (to_string v) = Some v.
@@ -308,24 +301,12 @@ Proof.
   unfold parse. set (t := trim_space x).
   destruct (str_eqb t []); [discriminate|]. destruct (existsb is_space t); [discriminate|].
   set (ep := match cut_first colon [] t with Some (e, rest) => option_map (fun n => (n, rest)) (parse_epoch e) | None => Some (0%N, t) end).
-  assert (Hep : forall e rest, ep = Some (e, rest) -> (e <= max_int64)%N).
+  assert (Hep : forall e rest, ep = Some (e, rest) -> (e <= max_epoch)%N).
   { subst ep. intros e rest. destruct (cut_first colon [] t) as [[e0 rest0]|].
     - unfold parse_epoch. destruct e0 as [|c r]; [cbn; discriminate|].
-      assert (G : forall (neg : bool) (ds : str),
-        option_map (fun n : N => (n, rest0))
-          (match ds with
-           | [] => None
-           | _ => match dv 0 ds with
-                  | Some n => if neg then (if (n =? 0)%N then Some 0%N else None)
-                              else if (n <=? max_int64)%N then Some n else None
-                  | None => None end
-           end) = Some (e, rest) -> (e <= max_int64)%N).
-      { intros neg ds. destruct ds as [|a ds]; [cbn; discriminate|].
-        destruct (dv 0 (a :: ds)) as [n|]; [|cbn; discriminate]. destruct neg.
-        - destruct (n =? 0)%N; [|cbn; discriminate]. cbn. intros E. assert (e = 0%N) by congruence. subst e. unfold max_int64. lia.
-        - destruct (N.leb_spec n max_int64) as [Hle|]; [|cbn; discriminate]. cbn. intros E. assert (e = n) by congruence. subst e. exact Hle. }
-      destruct (ceq c plus); [apply (G false r)|]. destruct (ceq c minus); [apply (G true r)|apply (G false (c :: r))].
-    - intros E. assert (e = 0%N) by congruence. subst e. unfold max_int64. lia. }
+      destruct (dv 0 (c :: r)) as [n|]; [|cbn; discriminate].
+      destruct (N.leb_spec n max_epoch) as [Hle|]; [|cbn; discriminate]. cbn. intros E. assert (e = n) by congruence. subst e. exact Hle.
+    - intros E. assert (e = 0%N) by congruence. subst e. unfold max_epoch. lia. }
   destruct ep as [[e rest]|]; [|discriminate]. specialize (Hep e rest eq_refl).
   destruct (str_eqb rest []); [discriminate|].
   destruct (match cut_last minus rest with Some (a, b) => (a, b) | None => (rest, []) end) as [up rv].
